@@ -605,12 +605,12 @@ class ImportStatement:
 
         black_config = read_black_config()
         mode = dict()
-        if "line_length" in black_config:
-            mode["line_length"] = (
-                params.max_line_length
-                if params.max_line_length
-                else black_config["line_length"]
-            )
+        # An explicit width (--width / max_line_length) wins; otherwise use
+        # the line-length of pyproject.toml, if any; otherwise black's default.
+        if params.max_line_length:
+            mode["line_length"] = params.max_line_length
+        elif "line_length" in black_config:
+            mode["line_length"] = black_config["line_length"]
         if "target_version" in black_config:
             if isinstance(black_config["target_version"], set):
                 target_versions_in = black_config["target_version"]
